@@ -189,6 +189,41 @@ def wl_ctor(ctx, rng, case):
     case.nontrivial = True
 
 
+def wl_fill_all(ctx, rng, case):
+    """arrays of 256 .. 4100 bits in which EVERY bit is set (random order, through set_bit and item assignment) and cleared again one by one:
+    full bytes, full 64- / 256- / 512-bit blocks and the completely full array occur on the way; compared with the list at every multiple of
+    64 and around 255 / 256 / 65535"""
+    from probables.utilities import Bitarray
+
+    n = [256, 300, 512, 1000, 257, 4099][case.index % 6]
+    ba = Bitarray(n)
+    model = [0] * n
+    order = list(range(n))
+    if case.index % 2:
+        rng.shuffle(order)
+    case.desc = {"size": n, "kind": "every bit set, then every bit cleared", "order": "random" if case.index % 2 else "ascending"}
+    for phase, op in (("set", "set_bit"), ("clear", "clear_bit")):
+        for j, idx in enumerate(order):
+            # (the operations are applied directly - the full comparison with the list runs at the marks below, not after every call)
+            if j % 3 == 0:
+                ba[idx] = 1 if phase == "set" else 0
+            else:
+                getattr(ba, op)(idx)
+            model[idx] = 1 if phase == "set" else 0
+            ctx.count(f"op.{op}")
+            done = j + 1
+            if ba.check_bit(idx) != model[idx]:
+                ctx.fail(f"bit {idx} does not read back what was just written ({phase} #{done} on size {n})")
+            if done % (64 if n <= 600 else 512) == 0 or done in (255, 256, 257, n - 1, n):
+                compare(ctx, ba, model, f"after {done} bits were {phase} on size {n}")
+        if phase == "set":
+            apply(ctx, ba, model, "set_bit", order[0])  # setting a set bit of a full array changes nothing
+            compare(ctx, ba, model, f"after re-setting a bit of the completely full array of size {n}")
+        rng.shuffle(order)
+    ctx.count("fill_all_cases")
+    case.nontrivial = True
+
+
 def wl_many_clears(ctx, rng, case):
     """LONG lives: an array that is written once and then cleared hundreds or tens of thousands of times (a scratch bitmap cleared per
     request) must stay all zero - checked around every power-of-two number of clears - and must still take writes afterwards"""
@@ -229,6 +264,7 @@ PROP = Prop(
         Workload("ctor", wl_ctor, quick=9, thorough=9),
         Workload("random", wl_random, quick=400, thorough=300000),
         Workload("many_clears", wl_many_clears, quick=6, thorough=24),
+        Workload("fill_all", wl_fill_all, quick=6, thorough=60),
     ],
     assumptions=["values passed to []= are ints/bools, as the signature says",
                  "any of IndexError/ValueError/TypeError counts as 'rejected with an error'"],
